@@ -10,7 +10,8 @@ sd = os.path.join(wt, '_seed')
 dst = os.path.join(V, 'seeded', sid)
 os.makedirs(dst, exist_ok=True)
 for f in ('patch.diff', 'demo.cpp', 'NOTES.md'):
-    shutil.copy(os.path.join(sd, f), os.path.join(dst, f))
+    if os.path.exists(os.path.join(sd, f)):
+        shutil.copy(os.path.join(sd, f), os.path.join(dst, f))     # else: re-run on an already stored seed
 def sh(cmd, **kw):
     return subprocess.run(cmd, shell=True, stdout=subprocess.PIPE, stderr=subprocess.STDOUT, text=True, **kw)
 assert sh('git -C /repo diff --quiet').returncode == 0, '/repo dirty'
@@ -20,9 +21,10 @@ tmp = '/tmp/seedchk_%s' % sid
 shutil.rmtree(tmp, ignore_errors=True)
 os.makedirs(tmp)
 sh('cp -r /repo/include %s/include' % tmp)
-r0 = sh('clang++-14 -std=c++20 -O0 -w -I/repo/include %s/demo.cpp -o %s/d0 && %s/d0' % (dst, tmp, tmp))
+libs = ' -lboost_serialization' if 'lboost_serialization' in open(os.path.join(dst, 'NOTES.md')).read() else ''
+r0 = sh('clang++-14 -std=c++20 -O0 -w -I/repo/include %s/demo.cpp -o %s/d0%s && %s/d0' % (dst, tmp, libs, tmp))
 sh('cd %s && git init -q . && git apply %s/patch.diff' % (tmp, dst))
-r1 = sh('clang++-14 -std=c++20 -O0 -w -I%s/include %s/demo.cpp -o %s/d1 && %s/d1' % (tmp, dst, tmp, tmp))
+r1 = sh('clang++-14 -std=c++20 -O0 -w -I%s/include %s/demo.cpp -o %s/d1%s && %s/d1' % (tmp, dst, tmp, libs, tmp))
 shutil.rmtree(tmp, ignore_errors=True)
 print('demo without change rc=%d, with change rc=%d' % (r0.returncode, r1.returncode))
 ok_demo = r0.returncode == 0 and r1.returncode != 0
